@@ -136,6 +136,9 @@ class C17(Check):
         # many specialisations alive at once (a long run with many kinds of failures)
         for n in (40, 150, 400):
             yield {'pressure': n}
+        # ... the kept ones not being used at all meanwhile (a cache that forgets what was not used recently)
+        for n in (300, 700):
+            yield {'pressure': n, 'quiet': True}
 
     def strategy(self, tier):
         @st.composite
@@ -270,7 +273,7 @@ class C17(Check):
         for i, cls in enumerate(classes):
             alive.append(Concurrent[cls] if i % 2 else type(Concurrent(cls())))
             out.evals += 1
-            if i % 25 == 24 or i == n - 1:
+            if (i % 25 == 24 and not case.get('quiet')) or i == n - 1:
                 if Concurrent[KeyError] is not kept or type(failure) is not kept or Concurrent[LookupError, ...] is not kept2 \
                         or type(Concurrent(KeyError())) is not kept:
                     out.fail('type_identity', 'forgotten_under_pressure',
